@@ -1,7 +1,7 @@
 (* Prop_C09.v — property theorems for C09, and nothing else: each statement is closed
    by `exact <lemma>` and followed by Print Assumptions. *)
 From Dig Require Import Base Sig State Graph GraphProofs Register Resolve Run Spec Check
-  ErrTable Err ErrTableCheck GoTypes Parse RunRaw P_Parse.
+  ErrTable Err ErrTableCheck GoTypes Parse RunRaw P_Parse P_Frame P_Reg P_Keys.
 
 (* ---- C09: in every accepted signature single keys carry no group name and
         group keys carry one, so a single key and a group key never coincide ---- *)
@@ -14,3 +14,12 @@ Theorem C09_keys_disjoint_partial : forall s1 s2 k1 k2,
   accepted_sig s1 -> accepted_sig s2 -> single_key s1 k1 -> group_key s2 k2 -> key_eqb k1 k2 = false.
 Proof. exact P_Parse.keys_disjoint. Qed.
 Print Assumptions C09_keys_disjoint_partial.
+
+(* ---- C09 / C12 registration rules: a Provide is rejected as duplicate exactly
+        when a single key of its signature repeats or is already provided in
+        the target scope; group keys never conflict; a Decorate is rejected
+        exactly when the scope already decorates one of its keys ---- *)
+Theorem C09_rules_hold : forall cfg b du h, wf_scopes h = true -> hist_kinds_ok h = true ->
+  walk (fun r _ o ob => chk_keys_op r o ob) 0 reg0 [] h (map obs_of (run cfg b du h)) = [].
+Proof. exact P_Keys.keys_rules_ok. Qed.
+Print Assumptions C09_rules_hold.
